@@ -145,6 +145,34 @@ func vC09AddrList(r *rand.Rand, base int) (addrs [][]byte, kind string) {
 	return addrs, kind
 }
 
+// vC09BoundaryAddrs returns distinct /dns4/<name>/tcp/443 addresses such that a peer record made of
+// id and exactly these addresses, without connection field, serialises to `target` bytes (monitor's own
+// arithmetic: tag + length prefix + bytes per field). With target within a few bytes of the 8 KiB bound
+// the two bytes of a CONNECTED flag decide whether the record fits.
+func vC09BoundaryAddrs(id peer.ID, base, target int) []ma.Multiaddr {
+	vl := func(n int) int {
+		if n < 128 {
+			return 1
+		}
+		return 2
+	}
+	mk := func(j, alen int) ma.Multiaddr { // an address of exactly alen (>= 140) bytes
+		nameLen := alen - 6 // code 54, 2-byte name length, name, code 6, 2-byte port
+		name := fmt.Sprintf("b%d-%d-", base, j)
+		name += strings.Repeat("z", nameLen-len(name))
+		b := append([]byte{54, byte(nameLen&0x7f) | 0x80, byte(nameLen >> 7)}, name...)
+		return ma.Cast(append(b, 6, 0x01, 0xbb))
+	}
+	rem := target - (1 + vl(len(id)) + len(id))
+	var out []ma.Multiaddr
+	for j := 0; rem >= 2*203; j++ {
+		out = append(out, mk(j, 200)) // contributes 1 + 2 + 200
+		rem -= 203
+	}
+	out = append(out, mk(len(out), rem-3)) // 203 <= rem < 406: contributes 1 + 2 + (rem-3)
+	return out
+}
+
 // ---- the server under test ---------------------------------------------------------------------
 
 type vC09Srv struct {
@@ -153,6 +181,8 @@ type vC09Srv struct {
 	n      *vNet
 	K      int
 	filter bool
+	noProv bool // provider subsystem disabled (DisableProviders): provider RPCs are reported unsupported
+	noVal  bool // value subsystem disabled (DisableValues): value RPCs are reported unsupported
 	maxAge time.Duration
 
 	strangers []peer.ID // ids that are in neither the table nor (initially) the peerstore
@@ -211,6 +241,15 @@ func vC09NewSrv(t *testing.T, c *vh.Case) *vC09Srv {
 	if s.filter {
 		opts = append(opts, AddressFilter(vC09Filter))
 	}
+	// forked-DHT configurations with a subsystem switched off (handler dispatch is gated by them)
+	switch r.Intn(10) {
+	case 0:
+		s.noProv = true
+		opts = append(opts, DisableProviders())
+	case 1:
+		s.noVal = true
+		opts = append(opts, DisableValues())
+	}
 	s.n = vNewNet(t, c, vNetCfg{N: N, K: s.K, A: 3, B: 3, Seeds: N, Mode: ModeServer, Validator: vInValidator{}, Opts: opts})
 	n := s.n
 	ps := n.H.Peerstore()
@@ -237,6 +276,11 @@ func vC09NewSrv(t *testing.T, c *vh.Case) *vC09Srv {
 				addrs = append(addrs, ma.Cast(vC09Addr(r, "dnslong", i*64+j)))
 			}
 		}
+		if r.Intn(8) == 0 {
+			// id + addresses serialise to 8192-3 .. 8192 bytes: whether the record fits is decided by the connection flag
+			addrs = vC09BoundaryAddrs(id, i, vC09MaxPeerRecord-r.Intn(4))
+			c.Obs("boundary_address_lists", 1)
+		}
 		if len(addrs) > 0 {
 			ps.AddAddrs(id, addrs, peerstore.PermanentAddrTTL)
 			if !inTable[id] {
@@ -246,7 +290,12 @@ func vC09NewSrv(t *testing.T, c *vh.Case) *vC09Srv {
 	}
 	for i := 0; i < 3; i++ {
 		id := vsim.PeerID(fmt.Sprintf("psonly%d", c.Idx), i)
-		ps.AddAddrs(id, []ma.Multiaddr{ma.Cast(vC09Addr(r, "public", 1000+i))}, peerstore.PermanentAddrTTL)
+		if i == 0 {
+			ps.AddAddrs(id, vC09BoundaryAddrs(id, 1000, vC09MaxPeerRecord-r.Intn(4)), peerstore.PermanentAddrTTL)
+			c.Obs("boundary_address_lists", 1)
+		} else {
+			ps.AddAddrs(id, []ma.Multiaddr{ma.Cast(vC09Addr(r, "public", 1000+i))}, peerstore.PermanentAddrTTL)
+		}
 		s.psOnly = append(s.psOnly, id)
 	}
 	for i := 0; i < 6; i++ {
@@ -267,6 +316,9 @@ func vC09NewSrv(t *testing.T, c *vh.Case) *vC09Srv {
 				id = s.strangers[r.Intn(len(s.strangers))]
 			}
 			ai := peer.AddrInfo{ID: id, Addrs: []ma.Multiaddr{ma.Cast(vC09Addr(r, "public", 5000+j))}}
+			if s.noProv {
+				continue
+			}
 			if err := n.D.providerStore.AddProvider(ctx, k, ai); err != nil {
 				panic(err)
 			}
@@ -280,10 +332,13 @@ func vC09NewSrv(t *testing.T, c *vh.Case) *vC09Srv {
 			key = string(n.IDs[0]) // a record filed under a key that is also a peer id
 		}
 		rec := record.MakePutRecord(key, s.newVal(key, 5+i, false, 0))
+		s.valKeys = append(s.valKeys, key)
+		if s.noVal {
+			continue
+		}
 		if err := n.D.valueStore.Put(ctx, key, rec); err != nil {
 			panic(err)
 		}
-		s.valKeys = append(s.valKeys, key)
 	}
 	plant := func(key string, raw []byte) {
 		if err := n.J.Put(ctx, vInValueDsKey(key), raw); err != nil {
@@ -314,6 +369,8 @@ func vC09NewSrv(t *testing.T, c *vh.Case) *vC09Srv {
 	c.Set("K", s.K)
 	c.Set("table", len(inTable))
 	c.Set("address_filter", s.filter)
+	c.Set("providers_disabled", s.noProv)
+	c.Set("values_disabled", s.noVal)
 	return s
 }
 
@@ -584,7 +641,7 @@ type vC09ProvVerdict struct {
 
 func (s *vC09Srv) predictAddProvider(from peer.ID, m *pb.Message) vC09ProvVerdict {
 	v := vC09ProvVerdict{allowed: map[string]bool{}}
-	keyOK := len(m.GetKey()) >= 1 && len(m.GetKey()) <= 80
+	keyOK := len(m.GetKey()) >= 1 && len(m.GetKey()) <= 80 && !s.noProv
 	for _, p := range m.GetProviderPeers() {
 		if peer.ID(p.GetId()) != from {
 			continue
@@ -653,6 +710,12 @@ func (s *vC09Srv) exchange(st *vInStream, f *vC09Frame, what string) bool {
 	s.obs("outcome_"+outcome, 1)
 	c.Logf("%s from=%s %s -> %s", what, n.Name(from), f, outcome)
 	known09 := typ >= 0 && typ <= 5
+	// a disabled subsystem's RPCs are reported unsupported (dht.go: nil store => no handler => stream reset)
+	disabled := (s.noVal && (typ == pb.Message_GET_VALUE || typ == pb.Message_PUT_VALUE)) || (s.noProv && (typ == pb.Message_GET_PROVIDERS || typ == pb.Message_ADD_PROVIDER))
+	if disabled {
+		c.Check(len(frames) == 0 && reset, "disabled-subsystem-not-served", "%s: type %v although its subsystem is disabled (providers off=%v, values off=%v): %s", what, typ, s.noProv, s.noVal, outcome)
+		s.obs("disabled_subsystem_requests", 1)
+	}
 	if typ == pb.Message_ADD_PROVIDER {
 		c.Check(len(frames) == 0, "add-provider-never-answered", "%s: ADD_PROVIDER was answered with %d frame(s)", what, len(frames))
 		c.Check(!eof || reset, "one-reply-or-reset", "%s: stream closed by the server although the requester did not close it", what)
@@ -667,10 +730,12 @@ func (s *vC09Srv) exchange(st *vInStream, f *vC09Frame, what string) bool {
 	switch typ {
 	case pb.Message_PING:
 		validReq = true
-	case pb.Message_FIND_NODE, pb.Message_GET_VALUE:
+	case pb.Message_FIND_NODE:
 		validReq = len(key) > 0
+	case pb.Message_GET_VALUE:
+		validReq = len(key) > 0 && !s.noVal
 	case pb.Message_GET_PROVIDERS:
-		validReq = len(key) >= 1 && len(key) <= 80
+		validReq = len(key) >= 1 && len(key) <= 80 && !s.noProv
 	}
 	if validReq {
 		c.Check(outcome == "answered", "valid-request-answered", "%s: a well-formed request (type %v, %d-byte key) was not answered: %s", what, typ, len(key), outcome)
@@ -903,8 +968,8 @@ func (s *vC09Srv) finish(st *vInStream, what string) {
 
 func TestVerif_C09_frames(t *testing.T) {
 	vh.Run(t, vh.Spec{Prop: "C09", Unit: "frames", Quick: 160, Thorough: 8000, CostMs: 80,
-		Rule:    "per case one server-mode DHT (K in {1,2,3,5,8,20,64}, 0..3K+8 table peers, peerstore with none/public/private/relay/64 long dns addresses per peer, 3 provider keys, valid + planted expired/mis-filed/corrupt value entries, address filter in half the cases) and 12-30 inbound streams from table peers / strangers / peerstore-only peers / the node's own id, 1-4 generated frames each: type in {0..5, unknown enums} x key {empty,1,32,80,81,4 KiB, table peer, requester, self, stored key, planted key, provider key} x record {nil, ok, wrong key, invalid, empty, huge, foreign, garbage} x provider/closer lists {sender, other, self, empty id, garbage id} x addresses {none, public, private, loopback, relay, mixed, undecodable, 40 long dns, 10^4 public, 10^4 undecodable}; a control PING on a fresh stream after every frame; non-trivial = at least one frame answered, one reset and one ADD_PROVIDER judged; distinct by (K, table size, outcome sequence)",
-		Clauses: []string{"one-reply-or-reset", "control-ping-answered", "closer-at-most-k", "closer-never-requester-or-self", "closer-ascending", "closer-are-nearest-of-table", "find-node-target-first", "find-node-only-peers-with-addresses", "peer-record-at-most-8k", "reply-within-message-limit", "echo-without-peer-records", "get-value-record-has-requested-key", "get-value-record-not-expired", "add-provider-stored-iff-valid", "add-provider-never-answered", "peerstore-gains-only-filtered-sender-addresses", "read-requests-write-nothing", "valid-request-answered", "handler-ends-after-reset", "handler-ends-after-eof", "providers-are-stored-providers"}},
+		Rule:    "per case one server-mode DHT (K in {1,2,3,5,8,20,64}, 0..3K+8 table peers, peerstore with none/public/private/relay/64 long dns addresses per peer, 3 provider keys, valid + planted expired/mis-filed/corrupt value entries, address filter in half the cases, provider or value subsystem disabled in a fifth, some peers with address lists that fill the 8 KiB record bound to within 0-3 bytes) and 12-30 inbound streams from table peers / strangers / peerstore-only peers / the node's own id, 1-4 generated frames each: type in {0..5, unknown enums} x key {empty,1,32,80,81,4 KiB, table peer, requester, self, stored key, planted key, provider key} x record {nil, ok, wrong key, invalid, empty, huge, foreign, garbage} x provider/closer lists {sender, other, self, empty id, garbage id} x addresses {none, public, private, loopback, relay, mixed, undecodable, 40 long dns, 10^4 public, 10^4 undecodable}; a control PING on a fresh stream after every frame; non-trivial = at least one frame answered, one reset and one ADD_PROVIDER judged; distinct by (K, table size, outcome sequence)",
+		Clauses: []string{"one-reply-or-reset", "control-ping-answered", "closer-at-most-k", "closer-never-requester-or-self", "closer-ascending", "closer-are-nearest-of-table", "find-node-target-first", "find-node-only-peers-with-addresses", "peer-record-at-most-8k", "reply-within-message-limit", "echo-without-peer-records", "get-value-record-has-requested-key", "get-value-record-not-expired", "add-provider-stored-iff-valid", "add-provider-never-answered", "peerstore-gains-only-filtered-sender-addresses", "read-requests-write-nothing", "valid-request-answered", "handler-ends-after-reset", "handler-ends-after-eof", "providers-are-stored-providers", "disabled-subsystem-not-served"}},
 		func(c *vh.Case) {
 			c.Bubble(t, 6*time.Hour, "handler-hang", func(t *testing.T) {
 				s := vC09NewSrv(t, c)
